@@ -194,7 +194,7 @@ def verify_files(w, mon, arm, keys, inflight_ok):
             try:
                 st, core = _load_fresh(inc, p)
             except BaseException as e:
-                if isinstance(e, (SimCrash, SimHang)):
+                if isinstance(e, (SimCrash, SimHang, KeyboardInterrupt)) or type(e).__name__ == "CaseTimeout":
                     raise
                 forget(e)
                 orc = "O3.unloadable_after_crash" if arm == "crash" else "O1.load_raises"
